@@ -103,12 +103,35 @@ def edge_shape(rng, vb, force=None):
     across a corner, with its bounding box but not its geometry reaching into the viewBox, or covering the viewBox"""
     x0, y0, w, h = vb
     x1, y1 = x0 + w, y0 + h
-    k = force or rng.choice(["inside", "outside", "side", "side", "side-small", "side-small", "corner", "bbox-only", "cover", "curve-side"])
+    k = force or rng.choice(["inside", "outside", "side", "side", "side-small", "side-small", "corner", "bbox-only", "cover", "curve-side", "ring-side"])
     sz = rng.choice([0.1, 0.2, 0.4]) * min(w, h)
     f = lambda v: repr(round(v, 3))  # noqa: E731
 
     def rect(ax, ay, bx, by):
         return "M%s,%s L%s,%s L%s,%s L%s,%s Z" % (f(ax), f(ay), f(bx), f(ay), f(bx), f(by), f(ax), f(by))
+    if k == "ring-side":
+        # an outer contour that sticks out of the viewBox with a hole that lies inside it, the hole drawn in either direction
+        side = rng.choice("lrtb")
+        t = rng.uniform(0.15, 0.5)
+        big = 2.5 * sz
+        if side == "l":
+            ox0, oy0 = x0 - 0.5 * sz, y0 + t * h
+        elif side == "r":
+            ox0, oy0 = x1 - big + 0.5 * sz, y0 + t * h
+        elif side == "t":
+            ox0, oy0 = x0 + t * w, y0 - 0.5 * sz
+        else:
+            ox0, oy0 = x0 + t * w, y1 - big + 0.5 * sz
+        hx0, hy0 = ox0 + 0.8 * sz, oy0 + 0.8 * sz
+        hx1, hy1 = hx0 + 0.8 * sz, hy0 + 0.8 * sz
+        outer = "M%s,%s L%s,%s L%s,%s L%s,%s Z" % (f(ox0), f(oy0), f(ox0 + big), f(oy0), f(ox0 + big), f(oy0 + big), f(ox0), f(oy0 + big))
+        if rng.random() < 0.5:
+            outer = "M%s,%s L%s,%s L%s,%s L%s,%s Z" % (f(ox0), f(oy0), f(ox0), f(oy0 + big), f(ox0 + big), f(oy0 + big), f(ox0 + big), f(oy0))
+        # the hole runs against the outer contour (nonzero needs that); which way that is depends on the outer's direction
+        cw = "M%s,%s L%s,%s L%s,%s L%s,%s Z" % (f(hx0), f(hy0), f(hx1), f(hy0), f(hx1), f(hy1), f(hx0), f(hy1))
+        ccw = "M%s,%s L%s,%s L%s,%s L%s,%s Z" % (f(hx0), f(hy0), f(hx0), f(hy1), f(hx1), f(hy1), f(hx1), f(hy0))
+        hole = ccw if outer.split(" ")[1].endswith(f(oy0)) else cw
+        return k, outer + " " + hole
     if k == "inside":
         ax, ay = rng.uniform(x0, x1 - sz), rng.uniform(y0, y1 - sz)
         return k, rect(ax, ay, ax + sz, ay + sz)
@@ -382,6 +405,31 @@ def search(ctx, disagreements):
         ctx.count("pending-edit-clip")
         if (o1, r1) != (o2, r2):
             found.append({"kind": "clip-history", "input": t, "detail": "round_floats(0, inplace) then clip_to_viewbox(inplace) gives %s, clipping the serialised rounded document gives %s" % ((o1, (r1 or "")[:300]), (o2, (r2 or "")[:300]))})
+    # the command line's --clip_to_viewbox: the same clip as the library's, for a root with a viewBox and for one with
+    # width / height only
+    import subprocess, tempfile, os
+    for root_at in ('viewBox="0 0 20 20"', 'width="20" height="20"'):
+        doc = ('<svg xmlns="http://www.w3.org/2000/svg" %s><path d="M5,5 L30,5 L30,12 L5,12 Z" fill="red"/><path d="M25,25 L40,25 L40,40 Z"/>'
+               '<path d="M2,14 L9,14 L9,18 L2,18 Z" fill="blue"/></svg>' % root_at)
+        with tempfile.TemporaryDirectory() as td:
+            pth = os.path.join(td, "in.svg")
+            open(pth, "w").write(doc)
+            env = dict(os.environ, PYTHONPATH=os.path.join(common.REPO, "src"))
+            r = subprocess.run([common.PY, "-m", "picosvg.picosvg", "--clip_to_viewbox", pth], capture_output=True, text=True, env=env, timeout=120)
+        ctx.count("cli-clip:rc%d" % r.returncode)
+        if r.returncode != 0:
+            found.append({"kind": "clip-cli", "input": doc, "detail": "picosvg --clip_to_viewbox exits with %d" % r.returncode})
+            continue
+        why, _ = judge_doc(ctx, SVG.fromstring(doc).topicosvg().tostring(), npts=60)
+        lib = SVG.fromstring(doc).topicosvg().clip_to_viewbox().tostring()
+        A, B = render.Doc(lib, ctx.driver), render.Doc(r.stdout, ctx.driver)
+        for (x, y) in [(8, 8), (18, 8), (19.5, 6), (22, 8), (28, 8), (5, 16), (30, 30)]:
+            la, lb = A.point(x, y), B.point(x, y)
+            if la is render.UNKNOWN or lb is render.UNKNOWN:
+                continue
+            if render.paints(la) != render.paints(lb):
+                found.append({"kind": "clip-cli", "input": doc, "detail": "at (%s, %s) the CLI's --clip_to_viewbox output paints %s, the library's clip %s" % (x, y, render.paints(lb), render.paints(la))})
+                break
     found += bbox_judge(ctx, 600 if ctx.thorough() else 150)
     found += doc_bbox_judge(ctx, docs)
     ctx.stats["distinct_nontrivial"] = nontrivial + 2
